@@ -134,7 +134,13 @@ var vfShiftCur vfShiftT
 // vfSplitLive: the relational harnesses case-split "is this timestamp live?" (segment already
 // transmitted, probe timer armed, Update() called) so that the shift is a plain +dt instead of
 // an if-then-else term.
-var vfSplitLive bool
+var vfSplitLive int
+
+const (
+	vfSplitSegs    = 1 // per in-flight segment: already transmitted or not
+	vfSplitProbe   = 2 // probe timer armed or not (otherwise: disarmed)
+	vfSplitUpdated = 4 // Update() called before or not (otherwise: never)
+)
 
 // vfArbitraryKCP makes the dynamic state arbitrary within INV_KCP for the given shape.
 func vfArbitraryKCP(p string, k *KCP, sh vfShape) {
@@ -161,14 +167,14 @@ func vfArbitraryKCP(p string, k *KCP, sh vfShape) {
 	// a disarmed probe timer and a never-updated flush timer hold their initial constants
 	k.ts_flush = vfU32(p + "ts_flush")
 	k.updated = uint32(vfIntRange(p+"updated", 0, 1))
-	if vfSplitLive {
-		if vfPick(p+"probe-armed", 0, 1) == 1 {
+	if vfSplitLive != 0 {
+		if vfSplitLive&vfSplitProbe != 0 && vfPick(p+"probe-armed", 0, 1) == 1 {
 			vfAssume(k.probe_wait != 0)
 			k.ts_probe += z.dt
 		} else {
 			k.probe_wait, k.ts_probe = 0, 0
 		}
-		if vfPick(p+"updated-once", 0, 1) == 1 {
+		if vfSplitLive&vfSplitUpdated != 0 && vfPick(p+"updated-once", 0, 1) == 1 {
 			k.updated = 1
 			k.ts_flush += z.dt
 		} else {
@@ -210,7 +216,7 @@ func vfArbitraryKCP(p string, k *KCP, sh vfShape) {
 		d := seg.resendts - seg.ts
 		vfAssume(vfImplies(seg.xmit > 0, vfAnd(d <= seg.rto, seg.rto >= k.rx_minrto)))
 		vfAssume(vfImplies(seg.xmit == 0, vfAnd(seg.ts == 0, vfAnd(seg.resendts == 0, seg.rto == 0))))
-		if vfSplitLive {
+		if vfSplitLive != 0 {
 			if vfPick(q+"sent", 0, 1) == 1 {
 				vfAssume(seg.xmit > 0)
 				seg.ts += z.dt
